@@ -513,8 +513,15 @@ def run(ctx):
         "operands, relation, char* = unsigned or signed cast / signed difference), regenerated on every run (fail "
         "closed to the snapshot); the model's pointer comparison is defined from it and C17_ptr_compare, "
         "C17_eq_implies_hash, C17_compare_swap are re-proved on the current text",
-        "hand-written model C17/Model.v of cdata_richcompare/cdata_hash inside CPython's do_richcompare protocol; "
-        "tied by this run's differential test",
+        "coq/C17/Gen.v hash_prog: the WHOLE body of cdata_hash regenerated on every run as the list of arms tried before "
+        "`return _Py_HashPointer(c_data)` (HConvert = the CT_PRIMITIVE_ANY conversion arm, token for token; HNonnegSelf "
+        "= a signed|fits-long `value >= 0 -> return value` shortcut; any other text: fallback, fail closed); Model.hash "
+        "is its interpreter and C17_prim_hash_every_value / C17_int_cdata_hash_every_value / C17_eq_implies_hash are "
+        "re-proved on the current text",
+        "hand-written model C17/Model.v of cdata_richcompare's dispatch (v_is_ptr/w_is_ptr classification, conversion "
+        "loop) inside CPython's do_richcompare protocol; tied by this run's differential test",
+        "pyint_hash (C17/Model.v) is CPython's long_hash on a 64-bit build: sign * (|v| mod (2^61-1)), -1 -> -2 "
+        "(Example C17_pyint_hash_examples agrees with CPython on six boundary values)",
         "Section hypothesis py_eq_hash: x == y -> hash(x) == hash(y) on the non-cdata values involved (CPython's "
         "contract for int/bool/float/complex/bytes/str)",
         "Section hypothesis py_swap (only C17_py_prim_compare, C17_compare_swap): x op' y == y op x on builtin values",
@@ -535,9 +542,17 @@ MANIFEST = dict(
          "objects at least one of which is a cdata, a == b implies hash(a) == hash(b) (given CPython's contract on "
          "the converted values); pointer-like cdata compare under all six operators as their unsigned addresses "
          "whatever their Python subtype; primitive cdata compare and hash as the value they convert to; mixed "
-         "pointer-like/other pairs fall back to identity. The model is tied to the code by random pairs over all "
+         "pointer-like/other pairs fall back to identity. cdata_hash is regenerated from the source (Gen.v hash_prog, "
+         "interpreted by Model.hash_prim): C17_prim_hash_every_value (a primitive cdata hashes as its converted value "
+         "whatever the raw integer), C17_int_cdata_hash_every_value (integer cdata: hash = CPython's int hash "
+         "sign*(|v| mod (2^61-1)), -1 -> -2, for every 64-bit value and every signed/fits-long flag combination), "
+         "C17_pyint_hash_small / _not_identity / _range, and C17_nonneg_shortcut_refuted (the program with a "
+         "`non-negative value is its own hash` arm violates the theorem from 2^61-1 on, so such an edit breaks the "
+         "proof). The pointer branch of cdata_richcompare is regenerated too (ptr_branch); the rest of its dispatch is "
+         "hand-modelled. The model is tied to the code by random pairs over all "
          "cdata kinds and Python values, and the implication is tested directly incl. set/dict membership.",
-    note="Trusted: Coq kernel; hand model C17/Model.v (differential tie); CPython's do_richcompare order and "
+    note="Trusted: Coq kernel; hand model C17/Model.v of the dispatch (differential tie); the two translators in "
+         "tools/props/c17.py (ptr_branch, hash_prog); CPython's do_richcompare order and "
          "_Py_HashPointer as modelled; the harness's oracle for converted values (struct/int arithmetic). "
          "Theorems closed under the global context; CPython's == / hash contract is an explicit premise.",
     design_ref="DESIGN.md §4 C17")
